@@ -46,6 +46,7 @@ LEVEL = "exploration"
 TECHNIQUE = ("deterministic simulation: real SSH client/server transports over a simulated link, real key exchange, "
              "seeded cipher/MAC/compression configuration, payloads, segmentation and single-byte tampering; reference = list of payloads sent")
 QUICK_RUNS = 20000
+TWIN_P = 0.08   # this share of the runs drives two independent instances of the scenario one after the other (detsim.runner._run_scenario)
 BATCH = 60
 RUN_WALL_LIMIT_S = 30
 COMPONENTS = {
